@@ -26,6 +26,7 @@
         let mut f1 = ManuallyDrop::new(ch.receive());
         let mut f2 = ManuallyDrop::new(ch.receive());
         // model
+        if (p & P18) != 0 { arm_alloc(); }
         let mut fulfilled = false;
         let mut value: Option<u8> = None;
         let mut sent: Option<u8> = None; // the one accepted value (for the broadcast flavour)
@@ -123,6 +124,7 @@
                 if !fulfilled && np >= 1 { bits |= W_CLOSE_WAKES; }
                 fulfilled = true;
             }
+            oracle!(p, P18, alloc_events() == 0, "C18 oneshot: an operation allocated or freed heap memory");
             // every receiver pending at the moment of the send/close has been woken through its latest waker
             if fulfilled {
                 let now = [c0a.n(), c0b.n(), c1a.n(), c1b.n(), c2a.n(), c2b.n()];
@@ -324,6 +326,19 @@
     #[cfg(kani)]
     mod proofs {
         use super::*;
+        #[kani::proof]
+        #[kani::unwind(3)]
+        fn repoll_panics() {
+            let ch = Chan::<NoopLock>::new();
+            core::mem::forget(ch.send(Tag(1)));
+            repoll_after_ready(ch.receive());
+        }
+        #[kani::proof]
+        #[kani::unwind(7)]
+        #[kani::stub(alloc::alloc::alloc, crate::verif::common::stub_alloc)]
+        #[kani::stub(alloc::alloc::dealloc, crate::verif::common::stub_dealloc)]
+        #[kani::stub(alloc::alloc::realloc, crate::verif::common::stub_realloc)]
+        fn hist_c18_n5() { let _ = hist::<NoopLock, _>(&mut KaniSrc, 0, 5, P18); }
         macro_rules! hist_proof {
             ($name:ident, $lock:ty, $n:expr, $p:expr, $unw:expr) => {
                 #[kani::proof]
